@@ -152,11 +152,11 @@ package fstree
 
 //@ ghost pred renamedOK() bool
 //@ callrule generic_rename_result in (*genericWriter).writeAndRename
-//@   property C12, C13
+//@   property C12, C13, C15
 //@   callee os.Rename
 //@   defines err == nil ==> renamedOK()
 //@ func (*genericWriter).writeAndRename
-//@   property C12, C13
+//@   property C12, C13, C15
 //@   ensures [success_only_after_rename] err == nil ==> tmpFileComplete() && renamedOK()
 
 // ---- C11 (streamed range reads): the stream returned for a range of length ln > 0 is
